@@ -125,6 +125,25 @@ def rule_tables(prog, fixture=False):
                                         ok, why = True, "inside the success branch of check_sequence_fits, stepping one drive (2 surfaces) at a time"
                                     else:
                                         why = "the placement loop does not advance by the stride check_sequence_fits verified"
+                # (2b) must-fact form (the search and the placement are separate loops): check_sequence_fits
+                #      is known to have succeeded for the slot variable, or for the variable it was copied from
+                if not ok:
+                    origin = None
+                    sv0 = strip_all(slot)
+                    if sv0.get("k") == "DeclRefExpr":
+                        for v in fn.walk():
+                            if v.get("k") == "VarDecl" and v.get("d") == sv0.get("d") and v.get("c"):
+                                o = strip_all(v["c"][0])
+                                if o is not None and o.get("k") == "DeclRefExpr":
+                                    origin = o
+                    for atom, truth in (g.truths(n) or []):
+                        a = strip_all(atom)
+                        if truth and is_call(a) and notpl(a.get("q") or "").endswith("check_sequence_fits"):
+                            first = call_args(a)[0]
+                            if (same_expr(first, slot) or (origin is not None and same_expr(first, origin))) and \
+                                    _steps_by_two(fn, slot):
+                                ok, why = True, "check_sequence_fits succeeded for the first slot on every path; " \
+                                    "stepping one drive (2 surfaces) at a time"
                 # (3) the slot comes from a search helper that returns a slot only after
                 #     check_sequence_fits succeeded for it, and the loop steps by the verified stride
                 if not ok:
